@@ -38,14 +38,14 @@ Definition outJ (o : lres J) : J := match o with LOk r => r | LErr e => JErr e e
 (* (decorators applied innermost first, signature, raises, call) ->
    [chain of the stack; chain after applying the outermost decorator again; chain after applying the innermost
     decorator again on top; what the stack returns; what f returns; specification forwarded] *)
-Definition run_stack (x : list tag * sig Z * bool * call Z) : J :=
-  let '(ts, s, raises, c) := x in
+Definition run_stack (x : list tag * sig Z * bool * call Z * J) : J :=
+  let '(ts, s, raises, c, fallback) := x in      (* fallback: the value of the try_value variant in the stack (None, 0, NaN, True, False, []) *)
   let chain := wraps (rev ts) [] in
   let f := base_fn s raises in
   JL [chainJ chain;
       chainJ (match chain with t :: _ => wrap t chain | [] => [] end);
       chainJ (match ts with t :: _ => wrap t chain | [] => [] end);
-      outJ (apply_chain JNone JZ s chain f c);
+      outJ (apply_chain fallback JZ s chain f c);
       outJ (f c);
       JB true].
 
